@@ -208,6 +208,10 @@ def mutator(fn, want):
             ops = []
             for b, _ in p:
                 for cs in [c for c in te.calls if c.bb == b]:
+                    if (cs.callee.local or getattr(cs.callee, "res_local", False)) and cs.args and \
+                            any(x == ("param", 1) for a_ in cs.args[:1] for x in mir.subterms(a_)) and \
+                            cs.callee.name not in ("insert", "remove", "contains", "get", "is_set"):
+                        raise Und("the update is delegated to `%s`" % cs.callee.name)
                     if cs.callee.name in ("insert", "remove") and cs.args and "VarSet" in cs.callee.key():
                         w = which_set(resolve(cs.args[0], v))
                         if w is None:
